@@ -524,39 +524,58 @@ def s1_split(ctx):
 
 
 def s2_session_loop(ctx):
-    """S2 execute_session: status = true and one push per iteration, on every path, including the last line"""
-    ctx.rule('S2', 'one slot per line', floor=3)
+    """S2 execute_session: exactly one slot is pushed per line, in order, and a line cannot stop the remaining ones. Stated on
+    the CFG without assuming a particular loop form: with P = pushes into `lines` (each of a value produced by execute_text) and
+    N = the next_line() call: (1) no path from entry reaches N without a push; (2) no path from N returns to N without a push;
+    (3) no path leads from one push to a push without passing N; (4) after a push the function cannot return without passing N;
+    (5) nothing is pushed once next_line() answered None; status = true is set before the first push."""
+    ctx.rule('S2', 'one slot per line', floor=5)
     b = ctx.facts.body('smartcalc::SmartCalc::execute_session')
     ctx.fn(b)
-    loops = b.loops()
-    if len(loops) != 1:
-        raise AnchorLost('execute_session: expected one loop, found %d' % len(loops))
-    L = loops[0]
-    pushes = [bid for bid, t, m, recv in collection_writes(b) if m == 'push' and render(recv).endswith('.lines')]
-    execs = [bid for bid, t in b.calls(r'SmartCalc::execute_text$')]
+    pushes = [(bid, t) for bid, t, m, recv in collection_writes(b) if m == 'push' and render(recv).endswith('.lines')]
     nexts = [bid for bid, t in b.calls(r'Session::next_line$')]
-    if len(pushes) != 1 or len(execs) != 1 or len(nexts) != 1:
-        ctx.finding('S2', 'execute_session/shape', 'execute_session has %d push / %d execute_text / %d next_line sites; expected one each' % (len(pushes), len(execs), len(nexts)), site=b.loc)
+    if not pushes or len(nexts) != 1:
+        ctx.finding('S2', 'execute_session/shape', 'execute_session has %d push sites and %d next_line sites; expected at least one push and one next_line' % (len(pushes), len(nexts)), site=b.loc)
         return
-    pu, ex, nx = pushes[0], execs[0], nexts[0]
-    exits = [(x, s) for x in L['body'] for s in b.succs(x) if s not in L['body']]
-    ok = pu in L['body'] and ex in L['body'] and b.dominates(ex, pu) and all(b.dominates(pu, bk) for bk in L['backs']) and all(b.dominates(pu, x) for x, s in exits)
-    if ok:
-        ctx.ok('S2', 'every iteration (and the exit path) passes execute_text then lines.push', 'dominance', site=b.blocks[pu]['term']['loc'])
+    N = nexts[0]
+    P = set(bid for bid, t in pushes)
+    rets = [i for i in b.normal_blocks if b.blocks[i]['term']['k'] == 'return']
+    for bid, t in pushes:
+        v = render(b.expr(t['args'][1]))
+        if 'execute_text(' not in v:
+            ctx.finding('S2', 'execute_session/pushed-value', 'a slot is filled with %s, not with the result of execute_text for the current line' % v[:80], site=t['loc'])
+    loc = b.blocks[N]['term']['loc']
+    c1 = not (0 not in P and (0 == N or b.can_reach(0, N, avoid=P)))
+    c2 = not b.can_reach(N, N, avoid=P)
+    c3 = not any(b.can_reach(p_, q_, avoid={N}) for p_ in P for q_ in P)
+    c4 = not any(b.can_reach(p_, r_, avoid={N}) for p_ in P for r_ in rets)
+    # (5): blocks that run only when next_line() was None cannot reach a push
+    none_blocks = []
+    for i in b.normal_blocks:
+        for (_, d, v) in b.conditions(i):
+            ds = render(d)
+            if 'next_line(' in ds:
+                is_none = (ds.startswith('discr(') and not isinstance(v, tuple) and set(v) == {0}) or \
+                          ('is_none(' in ds and ((isinstance(v, tuple) and 0 in v[1]) or (not isinstance(v, tuple) and 0 not in v))) or \
+                          ('is_some(' in ds and not isinstance(v, tuple) and set(v) == {0})
+                if is_none:
+                    none_blocks.append(i)
+    c5 = bool(none_blocks) and not any(i in P or b.can_reach(i, p_) for i in none_blocks for p_ in P)
+    for ok_, key, good, bad in (
+            (c1, 'first-line', 'the first line is evaluated and pushed before the cursor moves', 'the cursor can move (next_line) before the first line was pushed'),
+            (c2, 'push-per-iteration', 'every further line is pushed before the cursor moves again', 'a line can be skipped: next_line() can be reached again without a push'),
+            (c3, 'double-push', 'at most one slot per line', 'two slots can be pushed for one line (push reaches push without next_line)'),
+            (c4, 'early-exit', 'after a line is pushed the only way out is next_line() == None', 'the function can return after a line without asking for the next one (a malformed line could stop the remaining ones)'),
+            (c5, 'push-after-end', 'nothing is pushed after next_line() == None', 'a slot can be pushed after the last line (or the None branch was not found)')):
+        if ok_:
+            ctx.ok('S2', good, 'cfg-paths', site=loc, sample=key in ('first-line', 'early-exit'))
+        else:
+            ctx.finding('S2', 'execute_session/%s' % key, bad, site=loc)
+    st = field_sets(b, 'smartcalc::ExecuteResult.status')
+    if st and all(v == 'True' for i, v in st) and all(any(b.dominates(i, p_) for i, v in st) for p_ in P):
+        ctx.ok('S2', 'status = true before the first slot', 'dominance', site=b.loc)
     else:
-        ctx.finding('S2', 'execute_session/push-per-iteration', 'not every path through the line loop pushes exactly one slot after evaluating the line', site=b.blocks[pu]['term']['loc'])
-    # the loop is left only when next_line() is None
-    good_exit = all(b.dominates(nx, x) for x, s in exits)
-    if good_exit:
-        ctx.ok('S2', 'the loop is left only after next_line() returned None', 'dominance', site=b.blocks[nx]['term']['loc'])
-    else:
-        ctx.finding('S2', 'execute_session/early-exit', 'the line loop can be left without asking for the next line (a malformed line could stop the remaining ones)', site=b.loc)
-    # status = true dominates the loop
-    st = [i for i, s in field_sets(b, 'smartcalc::ExecuteResult.status')]
-    if st and all(b.dominates(i, L['head']) for i in st) and all(v == 'True' for i, v in field_sets(b, 'smartcalc::ExecuteResult.status')):
-        ctx.ok('S2', 'status = true before the first line', 'dominance', site=b.loc)
-    else:
-        ctx.finding('S2', 'execute_session/status', 'status is not set to true before the line loop', site=b.loc)
+        ctx.finding('S2', 'execute_session/status', 'status is not set to true before the first line is pushed', site=b.loc)
 
 
 def field_sets(b, field):
@@ -569,26 +588,67 @@ def field_sets(b, field):
 
 
 def s3_next_line(ctx):
-    """S3 next_line: Some iff len > position + 1, then position := position + 1"""
+    """S3 next_line, tabulated: for every (number of lines n, cursor p) in 0..5 x 0..5 the CFG path selected by these values
+    sets the cursor to p + 1 and answers Some exactly when n > p + 1, and otherwise leaves the cursor alone and answers None
+    (however the guard is spelled); the line handed out is text_parts[new cursor]."""
+    from ..evalint import walk_cfg
     ctx.rule('S3', 'cursor guard and increment', floor=2)
     b = ctx.facts.body('session::Session::next_line')
     ctx.fn(b)
-    sets = [(bid, t, recv) for bid, t, m, recv in cell_writes(b) if m == 'set' and 'session::Session.position' in fields_in(recv)]
-    if len(sets) != 1:
-        ctx.finding('S3', 'next_line/cursor-writes', 'next_line writes the cursor %d times' % len(sets), site=b.loc)
-        return
-    bid, t, recv = sets[0]
-    val = render(b.expr(t['args'][1]))
-    conds = b.cond_text(bid)
-    if val not in ('(Cell::get(self.position) AddWithOverflow 1).#0', '(Cell::get(self.position) Add 1)'):
-        ctx.finding('S3', 'next_line/increment', 'the cursor is set to %s; expected position + 1' % val, site=t['loc'])
+    if b.loops():
+        raise AnchorLost('next_line contains a loop')
+    bad = []
+    cells = 0
+    for n in range(0, 6):
+        for p_ in range(0, 6):
+            def leaf(body, e, n=n, p_=p_):
+                e2 = strip(e, transparent=False)
+                if e2[0] == 'call':
+                    if re.search(r'Cell::<.*>::get$', e2[1]) and 'position' in render(e2):
+                        return p_
+                    if re.search(r'(Vec::<.*>|slice::<impl \[T\]>)::len$', e2[1]) and 'text_parts' in render(e2):
+                        return n
+                    if e2[1].endswith('Session::line_count') or e2[1].endswith('Session::has_value'):
+                        return None
+                if e2[0] == 'unop' and e2[1] == 'PtrMetadata' and 'text_parts' in render(e2):
+                    return n
+                return None
+            r = walk_cfg(b, leaf, watch=r'Cell::<.*>::set$')
+            cells += 1
+            if not r['ok']:
+                bad.append((n, p_, 'not evaluable: %s' % r.get('why')))
+                continue
+            sets = [c for c in r['calls']]
+            rk = None
+            if r['ret'] is not None:
+                if r['ret'].get('k') == 'assign' and r['ret']['rv'] == 'aggr':
+                    rk = r['ret']['adt'].rsplit('::', 1)[1]
+                elif r['ret'].get('k') == 'assign' and r['ret']['rv'] == 'use':
+                    ve = strip(b.expr(r['ret']['ops'][0]))
+                    rk = ve[1].rsplit('::', 1)[1] if ve[0] == 'aggr' else ('call' if ve[0] == 'call' else None)
+                elif r['ret'].get('k') == 'call':
+                    rk = 'call'
+            want_some = n > p_ + 1
+            if want_some:
+                okc = len(sets) == 1 and sets[0][1][1] == p_ + 1 and rk in ('Some', 'call')
+            else:
+                okc = len(sets) == 0 and rk == 'None'
+            if not okc:
+                bad.append((n, p_, 'cursor writes %s, result %s' % ([c[1][1] for c in sets], rk)))
+    ctx.analysed('S3', '%d (lines, cursor) cells walked' % cells)
+    if bad:
+        n, p_, why = bad[0]
+        ctx.finding('S3', 'next_line/table', 'with %d lines and the cursor at %d: %s; expected %s (%d of %d cells differ)' % (
+            n, p_, why, 'cursor := %d and Some(line)' % (p_ + 1) if n > p_ + 1 else 'cursor unchanged and None', len(bad), cells), site=b.loc)
     else:
-        ctx.ok('S3', 'position := position + 1', 'const', site=t['loc'])
-    want = r'\(Vec::len\(self\.text_parts\) Gt \(Cell::get\(self\.position\) AddWithOverflow 1\)\.#0\)!=\[0\]|\(Vec::len\(self\.text_parts\) Gt \(Cell::get\(self\.position\) Add 1\)\)!=\[0\]'
-    if any(re.fullmatch(want, c) for c in conds):
-        ctx.ok('S3', 'advance only when len > position + 1', 'guard-dom', site=t['loc'])
+        ctx.ok('S3', 'Some and cursor := cursor + 1 exactly when lines > cursor + 1 (36 cells)', 'table', site=b.loc)
+    # the line handed out is the one at the new cursor
+    idx = model.deep_calls(ctx, b, r'Index<.*>>::index$|slice::<impl \[T\]>::get$|Vec::<.*>::get$')
+    txt = ' '.join(render(a) for _b, _t, as_ in idx for a in as_)
+    if 'text_parts' in txt and ('position' in txt):
+        ctx.ok('S3', 'the returned line is text_parts[cursor]', 'wiring', site=b.loc)
     else:
-        ctx.finding('S3', 'next_line/guard', 'the cursor advances under %s; expected len > position + 1' % conds, site=t['loc'])
+        ctx.finding('S3', 'next_line/line', 'the returned line is not indexed by the cursor: %s' % txt[:100], site=b.loc)
 
 
 RULES = [('P1', p1_panics), ('T1', t1_loops), ('T2', t2_recursion), ('S1', s1_split), ('S2', s2_session_loop), ('S3', s3_next_line)]
